@@ -59,6 +59,8 @@ def st_model(ver='10'):
         'gref': st.sampled_from([None, None, 'optional', 'required']),
         'gvc': st.sampled_from([None, None, ['fixed', '5'], ['default', '7']]),
         'fref': st.sampled_from([None, None, 'optional', 'required']),
+        # a reference to the global attribute h, which itself declares default="7": the use may override it
+        'href': st.sampled_from([None, None, 'inherit', ['fixed', '5'], ['fixed', '7'], ['default', '9']]),
         'wc': st.one_of(st.none(), st.tuples(st.sampled_from(wcs), st.sampled_from(['strict', 'lax', 'skip']))),
         'wc_in_group': st.booleans(),
     })
@@ -88,6 +90,8 @@ def xsd(m):
         local += '<xs:attribute ref="t:g" use="%s"%s/>' % (m['gref'], gvc)
     if m['fref']:
         local += '<xs:attribute ref="f:fa" use="%s"/>' % m['fref']
+    if m.get('href'):
+        local += '<xs:attribute ref="t:h"%s/>' % ('' if m['href'] == 'inherit' else ' %s="%s"' % tuple(m['href']))
     wc = ''
     if m['wc']:
         c = m['wc'][0]
@@ -101,7 +105,7 @@ def xsd(m):
     lwc = '' if m['wc_in_group'] else wc
     return ('<xs:schema xmlns:xs="%s" xmlns:t="%s" xmlns:f="%s" targetNamespace="%s">'
             '<xs:import namespace="%s" schemaLocation="f.xsd"/>'
-            '<xs:attribute name="g" type="xs:int"/><xs:attribute name="h" type="xs:int"/>'
+            '<xs:attribute name="g" type="xs:int"/><xs:attribute name="h" type="xs:int" default="7"/>'
             '<xs:attributeGroup name="G">%s%s</xs:attributeGroup>'
             '<xs:element name="e"><xs:complexType>%s<xs:attributeGroup ref="t:G"/>%s</xs:complexType></xs:element>'
             '</xs:schema>' % (XS, TNS, FOR, TNS, FOR, grp, gwc, local, lwc))
@@ -140,6 +144,8 @@ def uses_of(m):
         uses[(TNS, 'g')] = dict(use=m['gref'], vc=m['gvc'])
     if m['fref']:
         uses[(FOR, 'fa')] = dict(use=m['fref'], vc=None)
+    if m.get('href'):
+        uses[(TNS, 'h')] = dict(use='optional', vc=['default', '7'] if m['href'] == 'inherit' else m['href'])
     return uses
 
 
